@@ -47,6 +47,7 @@ CFG = {
         "the Safe_* predicates talk about the MODEL's intermediate values; that the model's expressions are the Rust expressions is the hand-written mirroring checked by the correspondence runs (both overflow-check settings)",
         "proved for well-formed values (shared Bitmap.WF) and arguments of the right integer type: every mutator is total in both build configurations and keeps well-formedness (C16_mutators_total, C16_history_total, from C01); range()/into_range() panic exactly on the two documented inputs (C16_range_panics, from C03); from_lsb0_bytes never panics for offset + 8*len <= 2^32 and, for a multiple-of-8 offset, panics exactly past 2^32 (C16_lsb0_panics, from C17); select/min/max return None exactly when there is no such element (C16_select_total, C16_min_max_total); Debug is total and equals the SPEC string (C16_debug_total, C16_debug_spec)",
         "C16_ranges, C16_convertRange_ok/_error/_nonempty are proved without assumptions beyond bounds that fit u32 (convert_range_to_inclusive uses checked_add/checked_sub resp. explicit Excluded(MAX)/Excluded(0) arms: the guards are explicit in the model)",
+        'model-fidelity audit (notes/fidelity-codecs.md): Debug formatting printed the abstraction `elems` in the list branch; the Rust prints self.iter().collect::<Vec<_>>(). The driver (`debug`, `tdebug`) now executes Bitmap.debugFmtM / Treemap.debugFmtM, which drive the mirrored bitmap::Iter / treemap::Iter with next() until None, proved equal to debugFmt for well-formed values (Fidelity.debugFmtM_eq from C03_init + Iter.next_spec; Fidelity.tdebugFmtM_eq from C12_init + C12_step) and the theorems are restated for them: C16_debug_mirror_eq / _total / _spec, and (new, the treemap formatter had no theorem) C16_tdebug_mirror_eq, C16_tdebug_spec, C16_tdebug_total. As built, the driver does not evaluate the Safe_* predicates at run time (DESIGN §8 says it would); in the codec area the only observable consequence was the empty-container case described under C05',
     ],
     "level_text": "Theorems (Lean 4, kernel-checked) about the model: for every bound pair that convert_range_to_inclusive rejects, insert_range/remove_range/range_cardinality return 0, contains_range returns true and the bitmap is unchanged; the conversion fails exactly on the empty intervals (never on a non-empty one); Debug formatting is total; every arithmetic side condition of the stores, containers, 32-bit inherent API, serialization writer, statistics and treemap len/rank/select (decidable Safe_* predicates with file:line references) follows from well-formedness (C16_safe_*). Absence of arithmetic panics is additionally tied to the Rust source by running the property's argument table on generated values in two build profiles (overflow checks on: a panic is a difference; off: a wrapped value is a difference). Unbounded quantifier = theorem for the range part; the rest = sampled.",
     "level_note": "Trusted: Lean kernel; the hand-written model mirrors the code (checked by correspondence on generated values only); the per-site arithmetic side conditions (Safe_* predicates, Safe.lean) are theorems for the stores, containers, the 32-bit inherent API, serialization writer, statistics and the treemap's len/rank/select (see coverage.proof_gaps for what is left to the differential runs with overflow checks enabled). See evidence coverage.proof_gaps.",
